@@ -127,6 +127,7 @@ class Ctx:
         self.mono_pairs = []
         self.keep = []  # keep z3 terms alive (ids are recycled after GC)
         self.shadow = None  # concolic translator validation: variable name -> float
+        self.euf = False  # also build the EUF shadow term of every value
         self.simplify_stores = True  # masked scalar stores are simplified against the path condition
         self.opaque_math = False  # structural harnesses: sqrt/exp/log/trig results are uninterpreted (sound abstraction)
         self.shadow_checked = 0
@@ -285,12 +286,13 @@ def _is_num(x):
 class SV:
     """Symbolic (or exact concrete) scalar. kind: 'R' real/int, 'B' bool."""
 
-    __slots__ = ("t", "c", "kind", "A", "unit", "rad", "e10", "isint")
+    __slots__ = ("t", "c", "kind", "A", "unit", "rad", "e10", "isint", "e")
     __array_ufunc__ = None
     __array_priority__ = 1000
 
     def __init__(self, t=None, c=None, kind="R", A=None, unit=None, rad=None, e10=None, isint=False):
         self.t, self.c, self.kind, self.A, self.unit, self.rad, self.e10, self.isint = t, c, kind, A, unit, rad, e10, isint
+        self.e = None  # EUF shadow term (uninterpreted arithmetic, no folding): bit-level congruence claims
 
     # -- constructors ---------------------------------------------------------------
     @staticmethod
@@ -476,6 +478,11 @@ class SV:
 
     def item(self):
         return self
+
+    def __getitem__(self, key):
+        from .arr import SymArray, to_obj
+
+        return SymArray(to_obj(self))[key]
 
     def astype(self, *_a, **_k):
         return self
@@ -1309,3 +1316,60 @@ def sv_radians(x):
 
 def pi_sv():
     return SV(t=PI, A=Ang({}, Fr(1)))
+
+
+# ---------------------------------------------------------------------------------
+# EUF shadow: every arithmetic primitive also builds an uninterpreted application over its
+# operands' shadow terms (constants are NOT folded). Two computations with identical shadow
+# terms perform the same operations on the same operands in the same order, hence agree
+# bit for bit under every interpretation of the primitives, IEEE included.
+# ---------------------------------------------------------------------------------
+_EUF_FUNS = {}
+
+
+def _euf_fun(name, sorts, rsort):
+    k = (name, tuple(str(s) for s in sorts), str(rsort))
+    if k not in _EUF_FUNS:
+        _EUF_FUNS[k] = z3.Function("euf_" + name, *sorts, rsort)
+    return _EUF_FUNS[k]
+
+
+def eterm(x):
+    x = SV.of(x)
+    if x.e is not None:
+        return x.e
+    if x.t is None and isinstance(x.c, float):
+        return z3.Real("euf_inf_pos" if x.c > 0 else "euf_inf_neg")
+    return x.term()
+
+
+def _euf(name):
+    def deco(f):
+        def g(*args):
+            r = f(*args)
+            C = Ctx.current
+            if C is not None and C.euf and isinstance(r, SV):
+                es, tag = [], name
+                for a in args:
+                    if isinstance(a, str):
+                        tag = tag + "_" + {"<": "lt", "<=": "le", "==": "eq"}.get(a, a)
+                    else:
+                        es.append(eterm(a))
+                rs = z3.BoolSort() if r.kind == "B" else z3.RealSort()
+                fn = _euf_fun(tag, [e.sort() for e in es], rs)
+                r2 = SV(t=r.t, c=r.c, kind=r.kind, A=r.A, unit=r.unit, rad=r.rad, e10=r.e10, isint=r.isint)
+                r2.e = fn(*es)
+                return r2
+            return r
+
+        g.__name__ = getattr(f, "__name__", name)
+        g.__wrapped__ = f
+        return g
+
+    return deco
+
+
+for _fname in ("_add", "_neg", "_mul", "_div", "_pow", "_mod", "_cmp", "_and", "_or", "_xor", "_not", "sv_if", "sv_abs", "sv_min", "sv_max", "sv_sqrt",
+           "sv_cbrt", "sv_exp", "sv_log", "exp10", "sv_log10", "uf_pow", "sv_sin", "sv_cos", "sv_tan", "sv_arcsin", "sv_arccos", "sv_arctan2",
+           "sv_arctan", "sv_degrees", "sv_radians", "bool_to_real"):
+    globals()[_fname] = _euf(_fname.lstrip("_").replace("sv_", ""))(globals()[_fname])
